@@ -1,6 +1,36 @@
-(** C07 - placeholder until the promise theorems land. *)
-From Coq Require Import List NArith.
-From BP Require Import Model.Transcript.
+(** C07 — minimum-value promises.  "Accepted only under equal promise vectors" is deterministic up to the
+    transcript log (below) and probabilistic after it (random oracle + C02): not a theorem. *)
+From Coq Require Import List Arith NArith Bool.
+From BP Require Import Base.Field Model.Codec Model.Transcript Model.VerifyTop Model.Prover Proofs.TranscriptP Proofs.GuardsP.
+Import ListNotations.
+Local Close Scope N_scope.
+
+(** an absent promise is absorbed as zero *)
 Theorem C07_promise_none_is_zero : promise_value None = promise_value (Some 0%N).
 Proof. reflexivity. Qed.
 Print Assumptions C07_promise_none_is_zero.
+
+(** equal logs force value-wise equal promise vectors (and everything else): a substituted promise
+    other than None <-> Some 0 changes every challenge's oracle input *)
+Theorem C07_promise_change_changes_log : forall s s' p p' l,
+  List.length (p_li p) = List.length (p_ri p) -> List.length (p_li p') = List.length (p_ri p') ->
+  verifier_ops s p = Some l -> verifier_ops s' p' = Some l ->
+  map promise_value (ts_promises s) = map promise_value (ts_promises s').
+Proof. intros s s' p p' l H1 H2 E1 E2. destruct (verifier_ops_injective s s' p p' l H1 H2 E1 E2) as ((_ & _ & _ & _ & _ & H) & _). exact H. Qed.
+Print Assumptions C07_promise_change_changes_log.
+
+(** the verifier refuses exactly the promises that do not fit: bits < 64 and promise >= 2^bits *)
+Theorem C07_promise_fits_iff : forall bits v, promise_fits bits (Some v) = false <-> (bits < 64 /\ (2 ^ N.of_nat bits <= v)%N).
+Proof. exact promise_fits_iff. Qed.
+Print Assumptions C07_promise_fits_iff.
+
+Theorem C07_oversized_promise_refused : forall (K : Fld) (first : member K) rest,
+  (exists mb p, In mb (first :: rest) /\ In p (mb_promises K mb) /\ promise_fits (mb_bits K first) p = false) ->
+  consistency K (first :: rest) = None.
+Proof. exact oversized_promise_refused. Qed.
+Print Assumptions C07_oversized_promise_refused.
+
+(** the prover decomposes value - promise *)
+Theorem C07_prover_offsets_by_promise : forall v p, offset_value v (Some p) = (v - p)%N.
+Proof. reflexivity. Qed.
+Print Assumptions C07_prover_offsets_by_promise.
